@@ -470,10 +470,7 @@ let make_m1 (params : string list) : machine =
     | [ "save" ] | [ "wsave" ] | [ "ctab"; "save" ] -> ignore (fdo FSave)
     | [ "rollback" ] -> ignore (fdo FRollback)
     | [ "reopen" ] | [ "reopen"; _ ] -> ignore (fdo (FOpen (not !fast)))
-    | [ "reopenat"; v; _ ] ->
-        (match fdo (FOpen (not !fast)) with
-         | XOk -> ignore (fdo (FLoad (z_of_string v)))
-         | _ -> ())
+    | [ "reopenat"; v; _ ] -> ignore (fdo (FOpenAt (not !fast, z_of_string v)))
     | [ "load"; v ] -> ignore (fdo (FLoad (z_of_string v)))
     | [ "lvfo"; v ] | [ "wlvfo"; v ] -> ignore (fdo (FLvfo (z_of_string v)))
     | [ ("prune" | "wprune"); n ] -> ignore (fdo (FPrune (z_of_string n)))
@@ -895,6 +892,31 @@ let make_dec (_ : string list) : machine =
              | DOk n -> Printf.sprintf "ok:F,ver=%s,v=%s" (dec_of_z n.fn_version) (hex_of_bytes n.fn_value)
              | DErr -> "err"
              | DPanic -> "panic")
+        | [ "dec"; "getroot"; b ] ->
+            (* GetRoot + GetNode + Get on a store holding a one-leaf version 1 (6b -> 76) and this
+               value as the root entry of version 2 *)
+            let bb = empty_tok b in
+            let nk21 = node_key_bytes (z_of_int 2) (z_of_int 1) in
+            let as_node () =
+              (match decode_node nk21 bb with
+               | DErr -> "err"
+               | DPanic -> "panic"
+               | DOk n ->
+                   (match n.rn_value with
+                    | Some v -> if hex_of_bytes n.rn_key = "6b" then "ok:" ^ (if v = [] then "" else hex_of_bytes v) else "ok:nil"
+                    | None -> "*")) in
+            let at (ver : z) (nonce : z) =
+              if int_of_z ver = 1 && int_of_z nonce = 1 then "ok:76"
+              else if int_of_z ver = 2 && int_of_z nonce = 1 then as_node ()
+              else "err" in
+            (match classify_root bb with
+             | RootEmpty -> "ok:nil"
+             | RootRef13 (ver, nonce) ->
+                 (* a missing target falls back to (ver,0), which is never present here *)
+                 at ver nonce
+             | RootRef9 ver -> at ver (z_of_int 1)
+             | RootBadRef -> "err"
+             | RootNode -> as_node ())
         | [ "dec"; "root"; b ] ->
             let bb = empty_tok b in
             (match classify_root bb with
